@@ -41,7 +41,7 @@ pub fn un_inverse(input: &[Node], asm: &Assembly) -> InversionResult<Node> {
     }
     let mut hasher = RapidHasher::new(1);
     for node in input {
-        node.hash_with_span(&mut hasher);
+        node.hash_deep(Some(asm), &mut hasher);
     }
     let hash = hasher.finish();
     if let Some(cached) = CACHE.with(|cache| {
@@ -107,7 +107,7 @@ fn anti_inverse(input: &[Node], asm: &Assembly, for_un: bool) -> InversionResult
     }
     let mut hasher = RapidHasher::new(1);
     for node in input {
-        node.hash_with_span(&mut hasher);
+        node.hash_deep(Some(asm), &mut hasher);
     }
     let hash = hasher.finish();
     if let Some(cached) = CACHE.with(|cache| cache.borrow_mut().get(&hash).cloned()) {
